@@ -23,6 +23,7 @@ var table = map[string]entry{
 	"C05": {"exploration", checks.C05},
 	"C06": {"exploration", checks.C06},
 	"C08": {"exploration", checks.C08},
+	"C09": {"exploration", checks.C09},
 	"C10": {"exploration", checks.C10},
 	"C12": {"exploration", checks.C12},
 	"C13": {"exploration", checks.C13},
